@@ -333,6 +333,17 @@ CLAIMS = {
             "names, sizes, addresses, version strings and the alias groups themselves are values read from the binary; "
             "agreement with readelf on them is runtime",
             "§8.6 (added after the design: C18 was first declared not applicable)"),
+    "C20": ("finite-world interpretation (with tracked locals) of the canonicalisation driver and of every instantiation "
+            "of return_comparison_result, key agreement, and a set/restore pairing dataflow",
+            "type_base::get_canonical_type_for chooses a candidate's canonical type only after a comparison answered true "
+            "(R-CANONEQ), makes an unmatched type its own canonical type and registers it in the bucket (R-CANONNEW), uses "
+            "one key - the internal representation - for lookup and registration (R-CANONKEY), restores the two "
+            "comparison-mode switches on every path (R-CANONRESTORE); a failed comparison propagates no canonical type "
+            "and cancels the tentative ones on every path, a successful one cancels nothing, the verdict is returned "
+            "unchanged (R-CTPROP)",
+            "structural equality itself (ir::equals overloads, cycles, recursive-type marking) and therefore the "
+            "property's debug checks never firing: runtime",
+            "§8.6 (added after the design: C20 was first declared not applicable)"),
     "C21": ("AST shape rule over all overriders of diff::has_changes (sibling agreement) + operand-pairing rule over "
             "the ir::equals overloads",
             "every artifact diff's has_changes() is the negation of the IR deep-equality operator applied to the "
@@ -349,7 +360,6 @@ CLAIMS = {
 NOT_APPLICABLE = {
     "C15": "values decoded from DWARF by elfutils and interpreted by the reader; the oracle is a compiler, nothing static bounds it",
     "C16": "values decoded from DWARF (signatures) against source; runtime oracle",
-    "C20": "canonicalisation vs structural equality needs the runtime type graphs",
     "C35": "generic memory safety / UB of 120 kLOC has no repo-specific structural rule; sanitizers are a dynamic technique",
     "C43": "debug-info format independence: runtime values decoded by elfutils",
 }
